@@ -27,7 +27,7 @@ RULE = ('programs x sequences of K<=2 control messages {rpc pause/play/kill/stat
 RULE += ('; also: replies dropped by the transport, broadcasts delivered by keyword, processes recreated from a terminal checkpoint, messages sent from a communicator thread while the loop is blocked in its selector')
 ASSUMPTIONS = ['the RabbitMQ transport itself is replaced by an in-process communicator that follows its observable protocol (pv/comm.py)',
                'an exception raised by a handler may reach the sender wrapped in RemoteException']
-REQUIRED = ['recreated_with_cancelled_future', 'empty_texts_compared', 'handlers_ran', 'twin_compared', 'replies_compared', 'announcements_checked', 'intent/pause', 'intent/play', 'intent/kill', 'intent/status',
+REQUIRED = ['unreferenced_processes', 'falsy_process_ids', 'recreated_with_cancelled_future', 'empty_texts_compared', 'handlers_ran', 'twin_compared', 'replies_compared', 'announcements_checked', 'intent/pause', 'intent/play', 'intent/kill', 'intent/status',
             'via/rpc', 'via/bcast', 'wrap/raw', 'wrap/loop', 'broadcast_faults', 'after_termination_checks', 'in_step_deliveries', 'idle_deliveries', 'idle_thread_runs', 'dropped_replies', 'recreated_terminal_checks', 'unsubscribe_faults', 'own_subscription_handles', 'own_state_transitions', 'subscription_faults']
 BOUNDS = {'quick': '6 programs, K<=2 messages (K=2 sampled 1/3), all broadcast fault points', 'thorough': '14 programs + thread-mode delivery (400 runs)'}
 MSGS = [['rpc', 'pause', 'rp'], ['rpc', 'play', None], ['rpc', 'kill', 'rk'], ['rpc', 'status', None], ['bcast', 'pause', 'bp'], ['bcast', 'play', None],
@@ -227,6 +227,8 @@ def gen_cases(tier, seed):
             # (the label type of the state machine admits enums and plain strings)
             for label in ('enum', 'str'):
                 yield {'kind': 'own-state', 'requests': list(reqs), 'gap': gap, 'plan': [], 'wrap': False, 'label': label}
+    for wrap in (False, True):
+        yield {'kind': 'unreferenced', 'wrap': wrap}
     rng = plans.rng_for(seed, 'c16')
     for name, prog in sorted(_programs(tier).items()):
         n = plans.slots_of(prog)
@@ -251,6 +253,10 @@ def gen_cases(tier, seed):
             for plan in [[]] + [[{'at': s, 'act': m}] for s in (0, 1) for m in MSGS] + [[{'at': 0, 'act': m1}, {'at': 0, 'act': m2}] for m1 in MSGS[:4] for m2 in MSGS[:4]]:
                 yield {'kind': 'twin', 'name': name, 'program': prog, 'plan': [dict(e, act=list(e['act'])) for e in plan], 'wrap': wrap,
                        'drain': True, 'listener': False, 'recreate_cancelled': True}
+            # a process whose id is falsy (0, as a counter that starts there gives): addressed and announced like any other
+            for plan in [[]] + [[{'at': s, 'act': m}] for s in (0, 1, 2) for m in MSGS[:7]]:
+                yield {'kind': 'twin', 'name': name, 'program': prog, 'plan': [dict(e, act=list(e['act'])) for e in plan], 'wrap': wrap,
+                       'drain': True, 'listener': False, 'pid': 0}
             # a communicator that hands out subscription handles of its own
             for i, plan in enumerate(plist[:: max(1, len(plist) // 12)]):
                 yield {'kind': 'twin', 'name': name, 'program': prog, 'plan': [dict(e, act=list(e['act'])) for e in plan], 'wrap': wrap,
@@ -499,7 +505,57 @@ def run_own_state(case):
             'sample': {'program': 'own-state', 'requests': case['requests']}}
 
 
+class _Waiter(plumpy.Process):
+    def run(self):
+        return plumpy.Wait(self.done)
+
+    def done(self, *args):
+        return 5
+
+
+def run_unreferenced(case):
+    """A waiting process that nothing but its communicator (and its own stepping task) leads to -- what a launcher leaves behind when it
+    is told not to wait: it is alive, so it is reachable, whatever the garbage collector does in the meantime."""
+    import gc
+    import weakref
+    from pv.driver import Driver
+    V = judges.V
+    obs = {'unreferenced_processes': 1}
+    viol = []
+    with Driver(20000) as drv:
+        loop = drv.loop
+        base = comm.RmqShaped()
+        communicator = communications.LoopCommunicator(base, loop) if case.get('wrap') else base
+        ctl = pc.RemoteProcessThreadController(base)
+        proc = _Waiter(loop=loop, communicator=communicator, pid=77)
+        task = loop.create_task(proc.step_until_terminated())
+        drv.pump()
+        alive = weakref.ref(proc)
+        state = proc.state.value
+        del proc, task
+        for _ in range(3):
+            gc.collect()
+            drv.pump()
+        obs['collected_before_the_message'] = int(alive() is None)
+        replies = []
+        for send in (lambda: ctl.get_status(77), lambda: ctl.kill_process(77, 'bye')):
+            try:
+                fut = futures.unwrap_kiwi_future(send())
+                drv.pump()
+                replies.append(_reply_desc(fut))
+            except BaseException as exc:  # noqa: BLE001
+                replies.append(['raise', type(exc).__name__])
+        if state != 'waiting':
+            return {'viol': [], 'obs': obs, 'inconclusive': 'process not waiting', 'key': case, 'nontrivial': False}
+        if not (replies[0][0] == 'result' and isinstance(replies[0][1], dict)) or replies[1] != ['result', True]:
+            viol.append(V('live-unreachable', 'live-unreachable:unreferenced', 'a waiting process that only its communicator refers to answered the status / kill messages with %s '
+                          '(the object was %s by then)' % (replies, 'collected' if alive() is None and obs['collected_before_the_message'] else 'alive')))
+    return {'viol': viol, 'obs': obs, 'key': case, 'nontrivial': True, 'sample': {'kind': 'unreferenced', 'replies': _jsonable(replies)}}
+
+
 def run_case(case):
+    if case['kind'] == 'unreferenced':
+        return run_unreferenced(case)
     if case['kind'] == 'own-state':
         return run_own_state(case)
     if case['kind'] == 'thread':
@@ -527,7 +583,7 @@ def run_case(case):
     trans = [e[1:] for e in a['events'] if e[0] == 'state']
     exp_subjects = ['state_changed.%s.%s' % (f, t) for f, t in trans]
     failing = {int(i) for i in (case.get('bfail') or {})}
-    exp_ann = [[4242, s] for i, s in enumerate(exp_subjects, start=1) if i not in failing]
+    exp_ann = [[case.get('pid', 4242), s] for i, s in enumerate(exp_subjects, start=1) if i not in failing]
     got_ann = [x for x in ex['announced'] if str(x[1]).startswith('state_changed')]
     obs['announcements_checked'] = len(exp_subjects)
     if got_ann != exp_ann:
@@ -599,6 +655,7 @@ def run_case(case):
             viol.append(V('handler-return', 'handler-return:%s' % c['name'], '%s: handler %s returned %s, the direct call %s' % (label, c['name'], hv, dv)))
     # a live process can be reached (a direct call always can)
     obs['recreated_with_cancelled_future'] = int(bool(case.get('recreate_cancelled')))
+    obs['falsy_process_ids'] = int(case.get('pid') == 0)
     for x in a['acts']:
         if x['kind'] == 'rpc' and x['live_before'] and x['ret'][0] == 'raise':
             viol.append(V('live-unroutable', 'live-unroutable:%s' % x['arg'][0], '%s: the rpc %s message to the live process (%s) could not be delivered: %s' % (
